@@ -22,6 +22,20 @@ ASSUMPTIONS = ['constructors applied by the caller to sub-trees it took from an 
                'the validators and is reported separately as coverage, not as a violation)']
 
 
+DEFAULT_TOKEN = [None]
+DEFAULT_TYPES = {}
+
+
+def _init_tokens():
+    import schema as SC
+    from gen import DEFAULT_SCHEMA
+    from propgen import TOPICS
+    tok = SC.to_token(SC.from_gen_schema(DEFAULT_SCHEMA))
+    DEFAULT_TOKEN[0] = tok
+    for t in TOPICS:
+        DEFAULT_TYPES[t] = tok
+
+
 def snap(o):
     return (repr(o), hash(o))
 
@@ -72,6 +86,8 @@ def api_calls(o, rng):
                       ('new [. to 9]', lambda: HplRange(o, HplLiteral('9', 9)))]
         if dt & DataType.PRIMITIVE == dt:
             calls += [('new {.}', lambda: HplSet((o,))), ('new (. = .)', lambda: HplBinaryOperator('=', o, o))]
+    if o.is_predicate or o.is_expression:
+        calls += [('type_check_references', lambda: o.type_check_references(DEFAULT_TOKEN[0], {'A': DEFAULT_TOKEN[0], 'B': DEFAULT_TOKEN[0], 'v': DEFAULT_TOKEN[0]}))]
     if o.is_predicate:
         calls += [('negate', lambda: o.negate()), ('join', lambda: o.join(o.negate())), ('split_and', lambda: R.split_and(o)),
                   ('refactor_reference', lambda: R.refactor_reference(o, 'A')),
@@ -81,7 +97,7 @@ def api_calls(o, rng):
     if o.is_property:
         calls += [('canonical_form', lambda: R.canonical_form(o)), ('sanity_check', lambda: o.sanity_check()),
                   ('is_fully_typed', lambda: o.is_fully_typed()),
-                  ('type_check_references', lambda: o.type_check_references({}))]
+                  ('type_check_references', lambda: o.type_check_references(DEFAULT_TYPES))]
     return calls
 
 
@@ -89,6 +105,7 @@ def run(ctx):
     rng = ctx.rng
     from hpl.parser import expression_parser, predicate_parser, property_parser
     ep, prp, pp = expression_parser(), predicate_parser(), property_parser()
+    _init_tokens()
     n = 120 if ctx.quick else 2000
     roots = []
     g = Gen(rng, aliases=['A', 'B'], max_depth=4)
@@ -120,7 +137,8 @@ def run(ctx):
             except Exception:
                 pass
     from rulefam import rule_directed
-    fam = rule_directed(rng, ctx.quick)
+    from sigfam import signature_family
+    fam = rule_directed(rng, ctx.quick) + [r for r, _ in signature_family() if 'call' not in repr(r) or all(len(a) == 1 for a in _call_args(r))]
     n_fam = 0
     for r in fam:
         try:
@@ -246,6 +264,19 @@ def run(ctx):
         'disagreements': [],
         'coverage_extra': stats,
     }
+
+
+def _call_args(r):
+    out = []
+    if isinstance(r, tuple):
+        if r and r[0] == 'call':
+            out.append(r[2])
+        for c in r[1:]:
+            out += _call_args(c)
+    elif isinstance(r, list):
+        for c in r:
+            out += _call_args(c)
+    return out
 
 
 def _changed_copy(x):
